@@ -190,13 +190,15 @@ pub struct Client {
     pub peer: Option<SocketAddr>,
     /// source address of every datagram received
     pub sources: Vec<SocketAddr>,
+    /// several transfers are open at once (C12): thread-count guards do not apply
+    pub unguarded: bool,
 }
 
 impl Client {
     pub fn new(server: SocketAddr) -> Client {
         let sock = UdpSocket::bind(if server.is_ipv6() { "[::1]:0" } else { "127.0.0.1:0" }).expect("bind client");
         big_rcvbuf(&sock);
-        Client { sock, server, peer: None, sources: vec![] }
+        Client { sock, server, peer: None, sources: vec![], unguarded: false }
     }
     pub fn local_port(&self) -> u16 {
         self.sock.local_addr().unwrap().port()
@@ -204,8 +206,29 @@ impl Client {
     pub fn to_server(&self, bytes: &[u8]) {
         let _ = self.sock.send_to(bytes, self.server);
     }
+    /// Sends to the transfer endpoint (ordinary protocol traffic: the endpoint has just sent us something).
     pub fn to_peer(&self, bytes: &[u8]) {
         let _ = self.sock.send_to(bytes, self.peer.unwrap_or(self.server));
+    }
+    /// For abort / clean-up datagrams: never send to a transfer port that may already be closed. Ephemeral ports are
+    /// re-used system-wide, and a datagram to a dead port can land in a socket of a parallel shard (cross-talk).
+    /// In multi-port mode the port is open as long as a transfer thread of this (one-transfer-at-a-time) process is
+    /// alive; in single-port mode the peer is the listening port, which is always ours.
+    pub fn to_peer_guarded(&self, bytes: &[u8]) {
+        let dst = self.peer.unwrap_or(self.server);
+        if dst == self.server || workers_alive() {
+            let _ = self.sock.send_to(bytes, dst);
+        }
+    }
+    /// After the handshake reply (OACK / ACK 0 are sent by the listener BEFORE it spawns the transfer thread): wait until
+    /// the listener has finished that request, then tell whether the transfer thread is (still) there. False means the
+    /// transfer ended at once (e.g. the target could not be opened) and its port must not be written to any more.
+    pub fn transfer_open(&self, srv: &Srv) -> bool {
+        if self.peer.unwrap_or(self.server) == self.server {
+            return true;
+        }
+        barrier(srv);
+        workers_alive()
     }
     /// one datagram or None after `wait`
     pub fn recv_wait(&mut self, wait: Duration) -> Option<(Vec<u8>, SocketAddr)> {
@@ -462,13 +485,17 @@ pub fn download_mode(srv: &Srv, name: &[u8], opts: &[(String, String)], pre_ack_
                     ws = v.max(1);
                 }
                 r.oack = Some(o);
+                if !c.transfer_open(srv) {
+                    r.anomalies.push("the transfer ended right after the OACK".into());
+                    break;
+                }
                 c.to_peer(&rc::ack(0));
             }
             Ok(RPacket::Data { block, data }) => {
                 burst.push(block);
                 if expect > 200_000 {
                     r.anomalies.push("more than 200000 blocks: giving up".into());
-                    c.to_peer(&rc::error(0, "too long"));
+                    c.to_peer_guarded(&rc::error(0, "too long"));
                     break;
                 }
                 if block == (expect % 65536) as u16 {
@@ -504,7 +531,7 @@ pub fn download_mode(srv: &Srv, name: &[u8], opts: &[(String, String)], pre_ack_
                 } else {
                     r.anomalies.push(format!("unexpected DATA({block}) while expecting {expect}"));
                     if r.anomalies.len() > 20 {
-                        c.to_peer(&rc::error(0, "giving up"));
+                        c.to_peer_guarded(&rc::error(0, "giving up"));
                         break;
                     }
                 }
@@ -515,7 +542,7 @@ pub fn download_mode(srv: &Srv, name: &[u8], opts: &[(String, String)], pre_ack_
             }
             other => {
                 r.anomalies.push(format!("unexpected reply {:?}", other.map(|_| rc::describe(&b))));
-                c.to_peer(&rc::error(0, "unexpected"));
+                c.to_peer_guarded(&rc::error(0, "unexpected"));
                 break;
             }
         }
@@ -574,7 +601,7 @@ pub fn upload(srv: &Srv, name: &[u8], opts: &[(String, String)], payload: &[u8])
         }
         _ => {
             r.anomalies.push(format!("unexpected first reply {}", rc::describe(&b)));
-            c.to_peer(&rc::error(0, "unexpected"));
+            c.to_peer_guarded(&rc::error(0, "unexpected"));
             quiesce();
             r.sources = c.sources.clone();
             return r;
@@ -582,13 +609,19 @@ pub fn upload(srv: &Srv, name: &[u8], opts: &[(String, String)], payload: &[u8])
     }
     if blk == 0 {
         r.anomalies.push("blksize 0 acknowledged".into());
-        c.to_peer(&rc::error(0, "bad blksize"));
+        c.to_peer_guarded(&rc::error(0, "bad blksize"));
         quiesce();
         r.sources = c.sources.clone();
         return r;
     }
     let nfinal = (payload.len() / blk) as u64 + 1;
     let mut base: u64 = 1;
+    if !c.transfer_open(srv) {
+        r.anomalies.push("the transfer ended right after it was accepted (target cannot be created?)".into());
+        quiesce();
+        r.sources = c.sources.clone();
+        return r;
+    }
     'outer: while base <= nfinal {
         let hi = (base + ws - 1).min(nfinal);
         for k in base..=hi {
@@ -630,7 +663,7 @@ pub fn upload(srv: &Srv, name: &[u8], opts: &[(String, String)], payload: &[u8])
         }
     }
     if !r.completed {
-        c.to_peer(&rc::error(0, "abort"));
+        c.to_peer_guarded(&rc::error(0, "abort"));
     }
     quiesce();
     while let Some((b, _)) = c.try_recv() {
@@ -673,7 +706,7 @@ pub fn upload_faulty(srv: &Srv, name: &[u8], opts: &[(String, String)], payload:
             return r;
         }
         _ => {
-            c.to_peer(&rc::error(0, "unexpected"));
+            c.to_peer_guarded(&rc::error(0, "unexpected"));
             quiesce();
             return r;
         }
@@ -686,6 +719,11 @@ pub fn upload_faulty(srv: &Srv, name: &[u8], opts: &[(String, String)], payload:
     };
     let mut base: u64 = 1;
     let mut rounds = 0;
+    if !c.transfer_open(srv) {
+        r.anomalies.push("the transfer ended right after it was accepted".into());
+        quiesce();
+        return r;
+    }
     let mut sent_hi: u64 = 0; // highest block ever sent: a cumulative ACK up to it is valid
     'outer: while base <= nfinal {
         let hi = (base + ws - 1).min(nfinal);
@@ -750,7 +788,7 @@ pub fn upload_faulty(srv: &Srv, name: &[u8], opts: &[(String, String)], payload:
         }
     }
     if !r.completed {
-        c.to_peer(&rc::error(0, "abort"));
+        c.to_peer_guarded(&rc::error(0, "abort"));
     }
     quiesce();
     r.sources = c.sources.clone();
